@@ -58,7 +58,7 @@ func (World) Generate(r *engine.RNG, tier string) *engine.Script {
 	s := &engine.Script{Property: "C08", Config: map[string]int64{}}
 	nbuf := r.Range(2, 4)
 	s.Config["nbuf"] = int64(nbuf)
-	if r.Chance(1, 8) {
+	if r.Chance(1, 5) {
 		s.Config["bufsize"] = 72 * 1024
 	}
 	ads := c08Adapters()
